@@ -24,7 +24,7 @@ def exec_prog(module, prog, vec, hooks=(), seed=0):
     return m
 
 
-def stage(ctx, module, spec, res, seconds=10):
+def stage(ctx, module, spec, res, seconds=3):
     """Clone + run the real pass.  Returns new module or None (rejected / timed out, already counted)."""
     m2 = module.clone()
     try:
